@@ -73,6 +73,21 @@ CLAIMED = {
             'Float-level claim by boundary-directed sampling. Trusted: vh/alpha.py, the cell map computed from the '
             'constructor inputs. California / Italy template regions cannot be loaded in this sandbox (emptied XML).',
             '5/C01'),
+    'C03': ('TLA+ spec of the definition and of the library accumulation algorithm (add.at, negative-index wrap, -1 check, '
+            'quadtree match-only lookup) proved equal by TLC on all small catalogs; abstract catalogs realised on Cartesian '
+            'and quadtree worlds; sparse counts of random catalogs validated by TLC',
+            'TLC checks ImplMatchesSpec, Conservation, Marginals, OccupancyIffPositive, BinEqualsFilter, '
+            'NoSilentMisplacement and OrderIrrelevant for every catalog of <=3 (thorough <=4) events over {outside, 2 cells} x '
+            '{below-min, 2 bins}, Cartesian and quadtree lookup semantics; the two repaired defects re-created in the model '
+            'must be refuted. Every abstract catalog is built on 4-5 concrete worlds (lattice with hole, flagged lattice, '
+            'shipped NZ region, quadtree zoom 2/3; explicit and region-bound magnitude grids; events on cell origins / bin '
+            'edges and interiors) and spatial_counts, spatial_event_probability, magnitude_counts, spatial_magnitude_counts '
+            'and magnitude-range filters must return the TLC-given outcome; random catalogs of up to 500 events are '
+            'projected to (cell, bin) pairs and the returned sparse arrays are accepted by TLC only if every entry is the '
+            'exact count.',
+            'Cell / bin membership of boundary values is delegated to C01 / C02 (events here sit on origins / edges or well '
+            'inside). Trusted: world construction in vh/drivers/c03.py.',
+            '5/C03'),
 }
 
 NOT_YET = 'check not built yet in this round (specification planned in DESIGN.md section 5); not claimed until it exists'
